@@ -515,7 +515,19 @@ func checkDescentLabelGuard(r *Report, rule, key string, fn *ssa.Function) {
 		if !ok {
 			return
 		}
+		type edgeAlt struct {
+			v     ssa.Value
+			conds []Cond
+		}
+		var eas []edgeAlt
 		for i, e := range ph.Edges {
+			// (a descent extracted into a helper that returns the child: its returns, adopt.go)
+			for _, a := range expandAlt(e, CondsOfEdge(ph.Block().Preds[i], ph.Block()), ph.Block().Preds[i], nil, 3) {
+				eas = append(eas, edgeAlt{a.Val, a.Conds})
+			}
+		}
+		for _, ea := range eas {
+			e := ea.v
 			kind := ""
 			if ex, isEx := e.(*ssa.Extract); isEx && ex.Index == 0 {
 				if lk, isLk := ex.Tuple.(*ssa.Lookup); isLk && isFieldLoad(lk.X, "ConstantChildren") {
@@ -542,7 +554,7 @@ func checkDescentLabelGuard(r *Report, rule, key string, fn *ssa.Function) {
 				fa, ok := u.X.(*ssa.FieldAddr)
 				return ok && fieldName(fa.X.Type(), fa.Field) == "IsPartOfHost" && (of == nil || fa.X == of)
 			}
-			for _, rel := range relsOfConds(CondsOfEdge(ph.Block().Preds[i], ph.Block())) {
+			for _, rel := range relsOfConds(ea.conds) {
 				if rel.Op == "==" && (isLabelOf(rel.L, e) && isLabelOf(rel.R, nil) && !isLabelOf(rel.R, e) || isLabelOf(rel.R, e) && isLabelOf(rel.L, nil) && !isLabelOf(rel.L, e)) {
 					okG = true
 				}
